@@ -654,6 +654,13 @@ pub fn exec_pp(t: &[&str]) -> String {
     format!("val {} ; {} ; {} ; {}", enc_value(&v), hex(&t1), item_value(r2.map(Some)), t2)
 }
 
+/// `triv <fast> <R10> <hex plain> <hex with-trivia>`: the value streams of both texts.
+pub fn exec_triv(t: &[&str]) -> String {
+    let a = exec(&format!("parse {} b {} r:v:64 {}", t[1], t[2], t[3]));
+    let b = exec(&format!("parse {} b {} r:v:64 {}", t[1], t[2], t.get(4).copied().unwrap_or("")));
+    format!("{} || {}", a, b)
+}
+
 pub fn exec(line: &str) -> String {
     let t: Vec<&str> = line.split_whitespace().collect();
     if t.is_empty() {
@@ -670,6 +677,7 @@ pub fn exec(line: &str) -> String {
         "rt" => exec_rt(&t),
         "prefix" => exec_prefix(&t),
         "pp" => exec_pp(&t),
+        "triv" => exec_triv(&t),
         #[cfg(feature = "full")]
         "ser" | "de" | "deser" => crate::serde_ops::exec_serde(&t),
         _ => format!("unknown-op {}", t[0]),
